@@ -4,6 +4,8 @@ import (
 	"fmt"
 	"os"
 	"strings"
+
+	bolt "go.etcd.io/bbolt"
 )
 
 // c04: API-level histories (also the substrate of C07/C12/C13: images after every commit when -img=commit).
@@ -33,6 +35,7 @@ func c04Main(args []string) error {
 	selfmoves := c.fs.Bool("selfmoves", false, "about one history in 24 moves a bucket into its own subtree (known finding D4) and ends there")
 	readersAlways := c.fs.Bool("readers", false, "every history holds read transactions open across writer events")
 	c.fs.Parse(args)
+	mlockWorks() // probe now: later the process-wide verif hooks are set and would record the probe's own I/O
 	w, done := openOut(c.out)
 	defer done()
 	if *dir == "" {
@@ -122,6 +125,7 @@ func c04Main(args []string) error {
 						o2.ngs = sr.chance(1, 2)
 						o2.imm = []int{0, 1 << 16, 4 << 20}[sr.intn(3)]
 						o2.strict = sr.chance(1, 3)
+						o2.ml = mlockWorks() && sr.chance(1, 3)
 						if first {
 							o2.ps = []int{1024, 2048, 4096, 8192, 16384}[sr.intn(5)]
 						}
@@ -146,4 +150,24 @@ func c04Main(args []string) error {
 		runHistory(w, *dir, i, fmt.Sprintf("seed=%d", cr.s), lines, *img)
 	}
 	return nil
+}
+
+var mlockProbe = 0 // 0 unknown, 1 works, 2 refused
+
+// mlockWorks: Options.Mlock is only drawn when the kernel lets this process lock memory (RLIMIT_MEMLOCK)
+func mlockWorks() bool {
+	if mlockProbe == 0 {
+		mlockProbe = 2
+		d, err := os.MkdirTemp("/dev/shm", "bbml")
+		if err == nil {
+			defer os.RemoveAll(d)
+			if db, e := bolt.Open(d+"/p.db", 0600, &bolt.Options{Mlock: true, InitialMmapSize: 16 << 20}); e == nil {
+				if e2 := db.Update(func(tx *bolt.Tx) error { _, e3 := tx.CreateBucket([]byte("x")); return e3 }); e2 == nil {
+					mlockProbe = 1
+				}
+				db.Close()
+			}
+		}
+	}
+	return mlockProbe == 1
 }
